@@ -403,6 +403,58 @@ def auto_discharge(P, s):
                         e = idx[2][0][1]
                         if e[0] == 'bin' and e[1] == 'Sub' and e[3] == ('int', 1, 'usize') and e[2][0] == 'call' and e[2][1].endswith('::len'):
                             return 'DC-THEN', '[..len-1] inside bool::then on !is_empty of the same vector'
+    # `ys.iter().enumerate().find(|(i, y)| xs[*i] != **y)` (and `xs[i]` with the i it found) after `if xs.len() < ys.len() { bail }`:
+    # the index is an enumerate position of ys, and xs is at least as long
+    if s['kind'] == 'assert' and s['what'] == 'BoundsCheck' and len(s['ops']) == 2:
+        ln, idx = strip(s['ops'][0]), strip(s['ops'][1])
+        X = is_len_of(ln)
+        host, Y, site_block = None, None, None
+
+        def enum_src(it, fn_):
+            it = strip(expand(fn_, it))
+            while it[0] == 'call' and it[2] and re.search(r'(IntoIterator::into_iter)$', it[3] if len(it) > 3 else it[1]):
+                it = strip(it[2][0])
+            if it[0] == 'call' and (it[1].endswith('Iterator::enumerate') or (len(it) > 3 and str(it[3]).endswith('Iterator::enumerate'))) and it[2]:
+                src = strip(it[2][0])
+                while src[0] == 'call' and src[2] and re.search(r'(slice::<impl \[T\]>::iter|IntoIterator::into_iter|::deref|::as_slice|Vec::<T, A>::iter)$', src[3] if len(src) > 3 else src[1]):
+                    src = strip(src[2][0])
+                return src
+            return None
+        if X is not None and f.kind == 'Closure' and f.parent in P.fns and idx == ('field', ('arg', 2, '_2'), '0'):
+            par = P.fns[f.parent]
+            for c in par.calls(lambda r: r['path'] and re.search(r'Iterator::(find|position|any|all|find_map|filter)$', r['path'])):
+                args = [par.expr_of_operand(a) for a in c['term']['args']]
+                if len(args) == 2 and strip(args[1])[0] == 'closure' and strip(args[1])[1] == f.id:
+                    caps = strip(args[1])[2]
+                    Y = enum_src(args[0], par)
+                    if X[0] == 'upvar' and X[1] < len(caps):
+                        X = strip(expand(par, caps[X[1]]))
+                        while X[0] == 'call' and X[2] and re.search(r'(::deref|::as_slice)$', X[1]):
+                            X = strip(X[2][0])
+                    host, site_block = par, c['block']
+        elif X is not None and idx[0] == 'field' and idx[2] == '0':
+            pl = strip(idx[1])
+            if pl[0] == 'payload' and pl[2] == 'Some':
+                fnd = strip(expand(f, pl[1]))
+                if fnd[0] == 'call' and re.search(r'Iterator::find$', fnd[3] if len(fnd) > 3 else fnd[1]) and fnd[2]:
+                    Y = enum_src(fnd[2][0], f)
+                    X = strip(expand(f, X))
+                    while X[0] == 'call' and X[2] and re.search(r'(::deref|::as_slice)$', X[1]):
+                        X = strip(X[2][0])
+                    host, site_block = f, s['block']
+        if host is not None and Y is not None:
+            from guards import guards_of, cmp_parts
+            for g_ in guards_of(host):
+                cp = cmp_parts(g_.pred)
+                if g_.kind != 'reject' or not cp or not host.dominates(g_.block, site_block):
+                    continue
+                op, a, b = cp
+                if op == 'Gt':
+                    op, a, b = 'Lt', b, a
+                la, lb_ = is_len_of(expand(host, a)), is_len_of(expand(host, b))
+                norm_ = lambda z: strip(z[2][0]) if (z is not None and z[0] == 'call' and z[2] and re.search(r'(::deref|::as_slice)$', z[1])) else z
+                if op == 'Lt' and la is not None and lb_ is not None and norm_(la) == norm_(X) and norm_(lb_) == norm_(Y):
+                    return 'DC-ENUM-INDEX', 'index is an enumerate position of a list that a dominating test shows to be no longer than the indexed one'
     # `x.len().checked_sub(k).map(|n| .. x[..n] ..)`: the closure's parameter is len − k of the very vector it slices
     if s['kind'] == 'index' and f.kind == 'Closure' and f.parent in P.fns:
         par = P.fns[f.parent]
